@@ -622,6 +622,8 @@ package client
 //@ func (*Channel).ensureRegistered
 //@   trusted
 //@   requires c != nil
+//@   modifies ghost("marks")
+//@   ensures marked("ensureRegistered") && forall k string :: old(marked(k)) ==> marked(k)
 //@ func (*Channel).applyRecursive
 //@   trusted
 //@   requires c != nil
@@ -629,7 +631,7 @@ package client
 //@   requires chanOK(c) && ctx != nil && c.adjudicator != nil
 //@   modifies *
 //@   callsite (*Channel).ensureRegistered : !old(chanState(c).IsFinal)
-//@   callsite (*Channel).withdraw : secondary == old(secondary)
+//@   callsite (*Channel).withdraw : secondary == old(secondary) && (old(chanState(c).IsFinal) || old(marked("ensureRegistered")) || marked("ensureRegistered"))
 
 // Honest sub-channel funding (the update this client proposes): the sub-channel's balances are taken out of the participants'
 // balances and one sub-allocation {id, per-asset totals, no index map} is appended; nothing else changes. This is exactly
